@@ -51,7 +51,9 @@ Print Assumptions C09_invariant_reachable.
    *Snapshot / SnapshotSet of model directories).  Premise: snapshot ids are ordered byte-wise as the sequence
    numbers the model uses for them. *)
 From Coq Require Import String.
-From RQ Require Import Lib.GoLib Gen.SnapshotSet Proofs.C09_Gen.
+From RQ Require Import Lib.GoLib.
+From RQ Require Import Gen.SnapshotSet.
+From RQ Require Import Proofs.C09_Gen.
 Theorem C09_source_derived_eq : forall (enc : N -> string), (forall a b, String.ltb (enc a) (enc b) = (a <? b)%N) ->
   (forall a b, Snapshot_Less unit (gsnap enc a) (gsnap enc b) = dlt a b) /\
   (forall dir l, SnapshotSet_NewestFull unit (gset enc dir l) =
